@@ -261,7 +261,7 @@ func exhaustiveSwitchAround(L *Loaded, fi *FuncInfo, stack []ast.Node, call *ast
 		return nil
 	}
 	consts := pkgOf()
-	if len(consts) == 0 || nt.Obj().Name() == "TokenType" {
+	if len(consts) == 0 || nameIs(nt.Obj(), "TokenType") {
 		return false, "" // TokenType switches are partial by design; handled by the panic table / call-site analysis
 	}
 	have := map[types.Object]bool{}
@@ -315,7 +315,7 @@ func exhaustiveSwitchAround(L *Loaded, fi *FuncInfo, stack []ast.Node, call *ast
 	var missing []string
 	for _, cst := range consts {
 		n := cst.Name()
-		if nt.Obj().Pkg().Name() == "ast" && !produced[cst] {
+		if nameIs(nt.Obj().Pkg(), "ast") && !produced[cst] {
 			continue // never constructed by the parser
 		}
 		if strings.Contains(n, "INVALID") || strings.HasSuffix(n, "_end") || strings.HasSuffix(n, "_END") || strings.HasPrefix(n, "_") {
@@ -334,18 +334,18 @@ func exhaustiveSwitchAround(L *Loaded, fi *FuncInfo, stack []ast.Node, call *ast
 // ---------------- R3.2 ----------------
 
 var c03AssertTable = map[string]string{
-	"parser.(*parser).alias|alias.(*ast.StructAlias)":                                                              "complement of a comma-ok test for *ast.FuncAlias over the closed implementer set {FuncAlias, StructAlias} of ast.Alias",
-	"parser.(*parser).alias|structType.(*ddptypes.StructType)":                                                     "operand is stralias.Struct.Type or the non-nil result of GetInstantiatedStructType (a *StructType); a nil instantiation is impossible after checkAlias succeeded",
-	"parser.(*parser).checkAlias|structDecl.Type.(*ddptypes.GenericStructType)":                                    "guarded by ast.IsGeneric(structDecl), whose body is exactly this comma-ok test",
-	"parser.(*parser).fillAndVerifyGenericStructInstantiationParams|structDecl.Type.(*ddptypes.GenericStructType)": "only called from checkAlias under ast.IsGeneric(structDecl)",
-	"ddptypes.(ParameterType).String|paramType.Type.(PrimitiveType)":                                               "inside a String() method that is only reached through fmt verbs, which recover panics of String methods (prints %!v(PANIC=...)): influences a message, not a crash",
-	"parser.(*parser).constDeclaration|expr.(ast.Literal)":                                                         "one reaching definition is a *ast.ListLit, the other is dominated by isLiteral(expr)",
-	"parser.(*parser).structDeclaration|structType.(*ddptypes.StructType)":                                         "operand is the &ddptypes.StructType{} literal assigned a few lines above",
-	"annotators.(*ConstFuncParamAnnotator).VisitFuncDecl|param.(*ast.VarDecl)":                                     "function parameters are inserted into the body's symbol table as *ast.VarDecl by parseFunctionBody",
-	"annotators.(*ConstFuncParamAnnotator).VisitFuncCall|attachement.(ConstFuncParamMeta)":                         "only one MetadataKind exists and GetMetadataByKind filters by it",
-	"annotators.(*ConstFuncParamAnnotator).overwriteAttachement|att.(ConstFuncParamMeta)":                          "only one MetadataKind exists and GetMetadataByKind filters by it",
-	"ast.toInterfaceSlice|any(slice[i]).(U)":                                                                       "generic widening helper: every instantiation has T assignable to U",
-	"parser.toInterfaceSlice|any(slice[i]).(U)":                                                                    "generic widening helper: every instantiation has T assignable to U (the narrowing one, Declaration→*VarDecl, follows filterSlice(isVarDecl))",
+	"parser.(*parser).alias|‹ast.Alias›.(*ast.StructAlias)":                                                               "complement of a comma-ok test for *ast.FuncAlias over the closed implementer set {FuncAlias, StructAlias} of ast.Alias",
+	"parser.(*parser).alias|‹ddptypes.Type›.(*ddptypes.StructType)":                                                       "operand is stralias.Struct.Type or the non-nil result of GetInstantiatedStructType (a *StructType); a nil instantiation is impossible after checkAlias succeeded",
+	"parser.(*parser).checkAlias|‹*ast.StructDecl›.Type.(*ddptypes.GenericStructType)":                                    "guarded by ast.IsGeneric(structDecl), whose body is exactly this comma-ok test",
+	"parser.(*parser).fillAndVerifyGenericStructInstantiationParams|‹*ast.StructDecl›.Type.(*ddptypes.GenericStructType)": "only called from checkAlias under ast.IsGeneric(structDecl)",
+	"ddptypes.(ParameterType).String|‹ddptypes.ParameterType›.Type.(PrimitiveType)":                                       "inside a String() method that is only reached through fmt verbs, which recover panics of String methods (prints %!v(PANIC=...)): influences a message, not a crash",
+	"parser.(*parser).constDeclaration|‹ast.Expression›.(ast.Literal)":                                                    "one reaching definition is a *ast.ListLit, the other is dominated by isLiteral(expr)",
+	"parser.(*parser).structDeclaration|‹ddptypes.Type›.(*ddptypes.StructType)":                                           "operand is the &ddptypes.StructType{} literal assigned a few lines above",
+	"annotators.(*ConstFuncParamAnnotator).VisitFuncDecl|‹ast.Declaration›.(*ast.VarDecl)":                                "function parameters are inserted into the body's symbol table as *ast.VarDecl by parseFunctionBody",
+	"annotators.(*ConstFuncParamAnnotator).VisitFuncCall|‹ast.MetadataAttachment›.(ConstFuncParamMeta)":                   "only one MetadataKind exists and GetMetadataByKind filters by it",
+	"annotators.(*ConstFuncParamAnnotator).overwriteAttachement|‹ast.MetadataAttachment›.(ConstFuncParamMeta)":            "only one MetadataKind exists and GetMetadataByKind filters by it",
+	"ast.toInterfaceSlice|any(‹[]T›[‹int›]).(U)":                                                                          "generic widening helper: every instantiation has T assignable to U",
+	"parser.toInterfaceSlice|any(‹[]T›[‹int›]).(U)":                                                                       "generic widening helper: every instantiation has T assignable to U (the narrowing one, Declaration→*VarDecl, follows filterSlice(isVarDecl))",
 }
 
 func checkAssertions(c *Check) {
@@ -384,7 +384,7 @@ func checkAssertions(c *Check) {
 				return true
 			}
 			target := info.TypeOf(ta.Type)
-			key := q + "|" + L.Src(ta)
+			key := q + "|" + normSrc(L, info, ta)
 			if len(key) > 140 {
 				key = key[:140]
 			}
@@ -432,7 +432,7 @@ func checkAssertions(c *Check) {
 			}
 			// (iii) normalised operand under the matching Is* guard
 			guardFor := map[string]string{"ListType": "IsList", "StructType": "IsStruct", "PrimitiveType": "IsPrimitive", "TypeDef": "IsTypeDef"}
-			if nt, ok := derefNamed(target); ok && nt.Obj().Pkg() != nil && nt.Obj().Pkg().Name() == "ddptypes" {
+			if nt, ok := derefNamed(target); ok && nt.Obj().Pkg() != nil && nameIs(nt.Obj().Pkg(), "ddptypes") {
 				if g, ok := guardFor[nt.Obj().Name()]; ok {
 					if okn, why := normalisedOperand(L, fi, ta.X, 0); okn {
 						guarded := false
@@ -450,7 +450,7 @@ func checkAssertions(c *Check) {
 							}
 							ast.Inspect(cond, func(m ast.Node) bool {
 								if call, ok := m.(*ast.CallExpr); ok {
-									if fn := Callee(info, call); fn != nil && fn.Name() == g && fn.Pkg() != nil && fn.Pkg().Name() == "ddptypes" {
+									if fn := Callee(info, call); fn != nil && fn.Name() == g && fn.Pkg() != nil && nameIs(fn.Pkg(), "ddptypes") {
 										guarded = true
 									}
 								}
@@ -1089,7 +1089,7 @@ func checkRecursion(c *Check) {
 		ast.Inspect(fi.Decl.Body, func(n ast.Node) bool {
 			switch x := n.(type) {
 			case *ast.CompositeLit:
-				if nt, ok := info.TypeOf(x).(*types.Named); ok && nt.Obj().Name() == "parser" && nt.Obj().Pkg() == pp.Types {
+				if nt, ok := info.TypeOf(x).(*types.Named); ok && nameIs(nt.Obj(), "parser") && nt.Obj().Pkg() == pp.Types {
 					if why, ok := reentry[q]; ok {
 						if strings.Contains(why, "no memo") {
 							r.Bad(q+"|nested parser", x.Pos(), "nested parser over a token span that is not provably shorter than the enclosing match, without a memo: alias → checkAlias → expression → alias can recurse without consuming (unrecoverable stack overflow)")
@@ -1151,7 +1151,7 @@ func checkInstantiationMemo(c *Check, r *Rule, prefix string) {
 		if !ok {
 			return true
 		}
-		if v := fieldOf(info, ix.X); v != nil && v.Name() == "Instantiations" {
+		if v := fieldOf(info, ix.X); v != nil && nameIs(v, "Instantiations") {
 			ext := false
 			for _, s := range stack {
 				if is, ok := s.(*ast.IfStmt); ok && condCalls(info, fi.Decl.Body, is.Cond, "src/ast", "IsExternFunc") && is.Body.Pos() <= ix.Pos() && ix.Pos() < is.Body.End() {
@@ -1198,7 +1198,7 @@ func checkInstantiationMemo(c *Check, r *Rule, prefix string) {
 	mf := &mustFlow{G: g, Init: 0, Transfer: func(n ast.Node, s uint32) uint32 {
 		if as, ok := n.(*ast.AssignStmt); ok && len(as.Lhs) == 1 {
 			if ix, ok := as.Lhs[0].(*ast.IndexExpr); ok {
-				if v := fieldOf(info, ix.X); v != nil && v.Name() == "Instantiations" && strings.Contains(L.Src(as.Rhs[0]), "append(") {
+				if v := fieldOf(info, ix.X); v != nil && nameIs(v, "Instantiations") && strings.Contains(L.Src(as.Rhs[0]), "append(") {
 					return s | 1
 				}
 			}
@@ -1210,7 +1210,7 @@ func checkInstantiationMemo(c *Check, r *Rule, prefix string) {
 	for _, b := range g.Blocks {
 		for i, n := range b.Nodes {
 			callsIn(n, func(call *ast.CallExpr) {
-				if fn := Callee(info, call); fn != nil && fn.Name() == "blockStatement" {
+				if fn := Callee(info, call); fn != nil && nameIs(fn, "blockStatement") {
 					found = true
 					r.Decide(mf.StateAt(b, i)&1 != 0, q+"|memo registered before the body is parsed", call.Pos(), "the instantiation is appended to the memo on every path to the body parse", "the body of the instantiation is parsed before the instantiation is registered: a recursive generic function instantiates itself without end")
 				}
@@ -1237,7 +1237,7 @@ func nestedParseSites(L *Loaded) []nestedParse {
 	isPlaceholder := func(n ast.Node) bool {
 		if as, ok := n.(*ast.AssignStmt); ok && len(as.Lhs) == 1 && len(as.Rhs) == 1 {
 			if ix, ok := as.Lhs[0].(*ast.IndexExpr); ok {
-				if v := fieldOf(info, ix.X); v != nil && v.Name() == "predefinedModules" && info.Types[as.Rhs[0]].IsNil() {
+				if v := fieldOf(info, ix.X); v != nil && nameIs(v, "predefinedModules") && info.Types[as.Rhs[0]].IsNil() {
 					return true
 				}
 			}
